@@ -64,10 +64,34 @@ class Path:
         if self.flags:
             self.effects = [e for e in effects if not (isinstance(e, ast.Expr) and isinstance(e.value, ast.Name)
                                                        and e.value.id == "__try_except__")]
+        # what the rules look at is free of the positional heap-version symbols (freeze_readers): `effects`, `ret`, `env`
+        # and `conds` show the expressions themselves; the frozen view (for refsem.summarise) is kept alongside
+        self.effects_frozen, self.ret_frozen, self.conds_frozen = self.effects, self.ret, self.conds
+        table = {e.targets[0].id: e.value for e in self.effects if isinstance(e, ast.Assign) and len(e.targets) == 1 and
+                 isinstance(e.targets[0], ast.Name) and e.targets[0].id.startswith("_pre")}
+        if table:
+            def thaw(n):
+                if n is None or not isinstance(n, ast.AST) or not any(isinstance(x, ast.Name) and x.id in table for x in ast.walk(n)):
+                    return n
+                return _Subst(table).visit(copy.deepcopy(n))
+            self.effects = [thaw(e) for e in self.effects if not (isinstance(e, ast.Assign) and len(e.targets) == 1 and
+                                                                 isinstance(e.targets[0], ast.Name) and e.targets[0].id in table)]
+            self.ret = thaw(self.ret)
+            self.conds = [(thaw(t), pol) for t, pol in self.conds]
+            self.env = {k: thaw(v) if isinstance(v, ast.AST) else v for k, v in self.env.items()}
 
-    def conds_open(self):
+    def thaw(self, node):
+        """`node` with the positional symbols of freeze_readers (`_preN`) replaced by the expressions they stand for"""
+        table = {e.targets[0].id: e.value for e in self.effects if isinstance(e, ast.Assign) and len(e.targets) == 1 and
+                 isinstance(e.targets[0], ast.Name) and e.targets[0].id.startswith("_pre")}
+        if not table or not any(isinstance(n, ast.Name) and n.id in table for n in ast.walk(node)):
+            return node
+        return _Subst(table).visit(copy.deepcopy(node))
+
+    def conds_open(self, frozen=False):
         """conditions that were not decided by constant folding"""
-        return [(t, p) for t, p in self.conds if not (isinstance(t, ast.Constant) and isinstance(t.value, (bool, int)))]
+        src = self.conds_frozen if frozen else self.conds
+        return [(t, p) for t, p in src if not (isinstance(t, ast.Constant) and isinstance(t.value, (bool, int)))]
 
     def cond_text(self):
         return " and ".join(("" if pol else "not ") + "(" + unparse(t) + ")" for t, pol in self.conds)
